@@ -828,6 +828,15 @@ func init() {
 		return ""
 	})
 
+	// ---- cron spec validation is pure: run the real parser on the concrete spec
+	E("github.com/robfig/cron/v3.ParseStandard", func(fr *frame, args []value) value {
+		spec := concStr(args[0], "cron.ParseStandard")
+		if err := cronValidate(spec); err != nil {
+			return tuple{iface{}, iface{errorType, err.Error()}}
+		}
+		return tuple{iface{types.NewPointer(lookupNamed(fr.i.prog, "github.com/robfig/cron/v3", "SpecSchedule")), box(spec)}, iface{}}
+	})
+
 	// ---- runtime
 	E("runtime.Caller", func(fr *frame, args []value) value { return tuple{uintptr(0), "", 0, false} })
 	E("runtime.FuncForPC", func(fr *frame, args []value) value { return (*value)(nil) })
